@@ -106,6 +106,25 @@ def refusals(ctx, rule='C15-R1'):
                   instance=f'warning category at {e.loc().split(":")[-1]}')
 
 
+def _plain_rows(t, fx):
+    """The same rows and values with index bookkeeping removed: reset_index(drop=True) / copy() keep every row and
+    value, and a pre-selection of columns of the working copy that retains type, dt and ceilo is the working copy as
+    far as this test is concerned."""
+    if not isinstance(t, tuple):
+        return t
+    tg = tag(t)
+    if tg is None:
+        return tuple(_plain_rows(x, fx) for x in t)
+    new = tuple([t[0]] + [_plain_rows(x, fx) if isinstance(x, tuple) else x for x in t[1:]])
+    if tg == 'mcall' and new[2] == 'reset_index' and dict(new[4]).get('drop', new[3][1] if len(new[3]) > 1 else None) == C(True):
+        return new[1]
+    if tg == 'mcall' and new[2] == 'copy':
+        return new[1]
+    if tg == 'cols' and _is_data(new[1], fx) and {'type', 'dt', 'ceilo'} <= set(new[2]):
+        return new[1]
+    return new
+
+
 def _coincidence(mg, fx):
     """merged = dets.merge(nodets, how='inner', on=['dt','ceilo']) for hit_type in [0, -1]."""
     if tag(mg) == 'call' and mg[1] == ('g', 'pandas.merge') and len(mg[2]) == 2:
@@ -116,7 +135,7 @@ def _coincidence(mg, fx):
     on = kw.get('on')
     if kw.get('how') != C('inner') or tag(on) != 'list' or {x[1] for x in on[1] if T.is_const(x)} != {'dt', 'ceilo'}:
         return None
-    sides = [mg[1], mg[3][0]]
+    sides = [_plain_rows(mg[1], fx), _plain_rows(mg[3][0], fx)]
     conds = []
     lv = None
     for sd in sides:
@@ -193,8 +212,11 @@ def normalisation(ctx, rule='C15-R2', rule3='C15-R3'):
         axis = dict(c[4]).get('axis')
         if not c[3] and 'columns' in dict(c[4]):
             axis = C('columns')
-        ok = cond is not None and tag(cond) == 'not' and tag(cond[1]) == 'cmp' and cond[1][1] == 'in' \
-            and cond[1][2] == key and axis in (C(1), C('columns'))
+        def not_required(cnd):
+            return cnd is not None and tag(cnd) == 'not' and tag(cnd[1]) == 'cmp' and cnd[1][1] == 'in' and cnd[1][2] == key
+        # the condition of the enclosing if, or - when the loop runs over a pre-filtered list - the filter (part of the
+        # guard of the drop)
+        ok = (not_required(cond) or any(not_required(l) for l in guard_literals(e.guard))) and axis in (C(1), C('columns'))
         ctx.check(ok, rule3, Q, e.node, e.loc(),
                   f'column removal drops {T.show(key)} (axis {T.show(axis)}) under {T.show(cond, maxlen=100) if cond is not None else None}: '
                   'exactly the columns that are not required must be dropped',
